@@ -234,6 +234,8 @@ class Maps:
         self.witness_depth = 0   # 0: only witnesses created by the execution itself are instantiation points
         self.strs = {}
         self.cls_tags = {}
+        # distinct string literals are distinct values, and none of them is None
+        self.gens.append(lambda E, J: [z3.Distinct(*([STRV(IntVal(i)) for i in range(len(self.strs))] + [NONE_V]))] if self.strs else [])
 
     # ------------------------------------------------------------------ instances
     def inst(self, elems=(), idxs=(), rounds=3):
@@ -241,7 +243,7 @@ class Maps:
         Evaluating a generator can register further generators and witnesses (a filter condition that builds a key list, a
         cardinality test), hence the passes; conditions are memoised, so a pass is idempotent."""
         out, seen = [], set()
-        ckey = (tuple(x.get_id() for x in elems), tuple(zi(j).get_id() for j in idxs), len(self.gens), len(self.elems))
+        ckey = (tuple(x.get_id() for x in elems), tuple(zi(j).get_id() for j in idxs), len(self.gens), len(self.elems), len(self.strs))
         if getattr(self, '_inst_cache', (None, None))[0] == ckey:
             return list(self._inst_cache[1])
         for rnd in range(rounds):
@@ -259,7 +261,7 @@ class Maps:
                 del self.elems[ne:]          # witnesses created while instantiating at witnesses are not instantiation points (finite)
             if len(self.gens) == ng and len(self.elems) == ne:
                 break
-        self._inst_cache = ((tuple(x.get_id() for x in elems), tuple(zi(j).get_id() for j in idxs), len(self.gens), len(self.elems)), list(out))
+        self._inst_cache = ((tuple(x.get_id() for x in elems), tuple(zi(j).get_id() for j in idxs), len(self.gens), len(self.elems), len(self.strs)), list(out))
         return out
 
     def strv(self, lit):
@@ -748,6 +750,7 @@ class Maps:
             return B((STARTSWITH if mname == 'startswith' else ENDSWITH)(recv.t, self.strv(args[0].lit)))
         if recv.kind == 'val' and recv.f.get('ty') == 'str' and mname == 'split' and len(args) == 1 and args[0].kind == 'str':
             ex.use('precondition:string keys contain no "%s" (dotted access walks nested mappings: outside the key universe)' % args[0].lit)
+            st.assume(Not(CONTAINS(recv.t, self.strv(args[0].lit))))
             return self.mk_list(PList.literal([recv.t]))
         return NotImplemented
 
